@@ -138,7 +138,8 @@ def decodeRaw (u : Uni) : Seq → Key
 def shiftText (u : Uni) (key : Key) : Key :=
   let nmods := andNot key.mods (ModCapsLock ||| ModNumLock)
   if key.text = [] ∧ nmods = ModShift ∧ u.isPrint key.keycode = true then
-    { key with text := strOfRune (u.toUpper key.keycode) }
+    if u.isPrint key.shifted = true then { key with text := strOfRune key.shifted }
+    else { key with text := strOfRune (u.toUpper key.keycode) }
   else key
 
 def decodeKey (u : Uni) (s : Seq) : Key := shiftText u (decodeRaw u s)
@@ -161,7 +162,7 @@ def «matches» (u : Uni) (k : Key) (key : Int) (modsIn : Nat) : Bool :=
   else if (!u.isLetter key && u.isGraphic key) = true ∧
       ((k.keycode = key ∧ unshiftedkMods = unshiftedMods) ∨ (k.shifted = key ∧ unshiftedkMods = unshiftedMods)) then true
   -- Rule 6
-  else if mods &&& ModShift ≠ 0 ∧ u.isLower key = true ∧
+  else if mods &&& ModShift ≠ 0 ∧ u.isLower key = true ∧ u.toUpper key ≠ key ∧
       k.text = strOfRune (u.toUpper key) ∧ unshiftedMods = unshiftedkMods then true
   else false
 
